@@ -22,6 +22,12 @@ TRUSTED_BASE = [
     'hand-written Gallina model of the loop/mutation code, tied to /repo by differential correspondence on generated cases',
     'Coq extraction with ExtrOcamlBasic only (no Extract Constant), OCaml 4.13.1, ocaml/driver.ml',
     'frozen ISO tables theories/Ref/IsoData.v constrained by cross-check theorems (BCH, Golay, Annex E, GF(256), module counts)',
+    'gen/translate_utils.py (segno/utils.py -> SrcUtils*.v: Q for int-or-float numbers, generators desugared to lists, is-None narrowing)',
+    'gen/translate_seg.py (make_segment / find_mode / is_kanji / data_to_bytes -> SrcMode.v, SrcSegMake.v; bytes content only, isinstance decided by the declared type)',
+    'theories/Base/PySem.v as the semantics of the statement fragment of generated code (py_for / ctl, list and Buffer operations, index wrap-around, exception classes; UnboundLocalError stands as TypeErr)',
+    'theories/Base/PySemGen.v (exact rationals for numbers that are ints or exactly representable floats, generator = list of yielded items, itertools.repeat / chain)',
+    'theories/Base/PySemSeg.v (bytes operations, int(bytes) as PyLong_FromString base 10, compiled regex read as ^?[class]+\\Z, next(iter); StopIteration stands as TypeErr)',
+    'theories/Base/PySemExt.v (while loops bounded by fuel; py_unmodelled marks out-of-fuel / ZeroDivisionError / OverflowError, so Ok-results are exact and Err-results partial; bytearray.find; PrimFloat = CPython binary64 round-to-nearest-even, used for N4)',
 ]
 
 
@@ -84,6 +90,12 @@ def build_all(clean=False):
             translator['seg'] = json.loads(r.stdout[r.stdout.index('{'):])
         except Exception:
             translator['seg'] = {'functions': {'*': 'failed: translator crashed'}, 'output': r.stdout[-2000:]}
+        r = run(['/venv/bin/python', os.path.join(VERIF, 'gen', 'translate_writers.py'), REPO, os.path.join(BUILD, 'gen')],
+                timeout=300)       # simple serializers of segno/writers.py (after translate_utils.py: it refers to SrcUtils*.v)
+        try:
+            translator['writers'] = json.loads(r.stdout[r.stdout.index('{'):])
+        except Exception:
+            translator['writers'] = {'functions': {'*': 'failed: translator crashed'}, 'output': r.stdout[-2000:]}
         srcs = coq_sources()
         listfile = os.path.join(BUILD, '.filelist')
         old = open(listfile).read() if os.path.exists(listfile) else ''
@@ -278,6 +290,11 @@ def oracle(lines, timeout=3600):
         import resource
         gb = int(os.environ.get('VERIF_ORACLE_GB', '6'))
         resource.setrlimit(resource.RLIMIT_AS, (gb << 30, gb << 30))
+        try:       # extracted list functions are not tail recursive: long documents need a deep stack
+            soft, hard = resource.getrlimit(resource.RLIMIT_STACK)
+            resource.setrlimit(resource.RLIMIT_STACK, (hard, hard))
+        except (ValueError, OSError):
+            pass
     for attempt in range(3):
         try:
             r = subprocess.run([exe], input=data, stdout=subprocess.PIPE, stderr=subprocess.PIPE, text=True, timeout=timeout,
@@ -299,6 +316,10 @@ def oracle(lines, timeout=3600):
         raise RuntimeError('oracle binary failed (exit %s) on request %s ... %s (full request in build/logs/oracle_fail.txt): %s'
                            % (r.returncode, lines[0][:120], lines[0][-80:], r.stderr[-300:]))
     out = r.stdout.splitlines()
+    for q, a in zip(lines, out):
+        if a.startswith('ERR Stack overflow') or a.startswith('ERR Out of memory'):
+            # a resource limit of the evaluator, never a verdict about the implementation
+            raise RuntimeError('oracle ran out of resources (%s) on request %s ...' % (a, q[:200]))
     if len(out) != len(lines):
         raise RuntimeError('oracle answered %d lines for %d requests' % (len(out), len(lines)))
     return out
